@@ -114,8 +114,13 @@ def polynomial_from_attributes(
 
     if coefficients and numpy.dtype(dtype) in CFUNCTION_DTYPES:
         numpoly.cfrom_attributes(coefficients, poly.values.ravel())
-    else:
+    elif coefficients:
         for key, values in zip(poly.keys, coefficients):
             poly.values[key] = values
+    else:
+        # no coefficients to copy: the freshly allocated storage is zeroed
+        # rather than handed out unwritten.
+        for key in poly.keys:
+            poly.values[key] = 0
 
     return poly
